@@ -329,5 +329,111 @@ theorem reshape_mid {t : Tensor α} {N D : Nat} {f : Nat → Nat → Nat → α}
   have := is3_data h n 0 d hn (by omega) hd
   simpa using this
 
+theorem sumOver_one (f : Nat → α) : sumOver 1 f = Scalar.add Scalar.zero (f 0) := by
+  simp [sumOver, List.range_one]
+
+theorem targetBroadcast_fc (N O D : Nat) (hO : 0 < O) (hD : 0 < D) : targetBroadcastDims [O, 1] [N, 1, D] = [N, O, D] := by
+  simp only [targetBroadcastDims, List.reverse_cons, List.reverse_nil, List.nil_append, List.cons_append, targetBroadcastLE]
+  have h1 : ¬ (1 > D) := by omega
+  have h2 : (if O > 1 then O else 1) = O := by split <;> omega
+  simp [h1, h2]
+
+/-! ## heap-level steps: each public call allocates nodes whose value *and context* are known -/
+
+/-- `H'` is `H` plus one new node (id `H.size`) holding value `v` and context `c` -/
+structure Alloc (H : Heap α) (v : Tensor α) (c : Ctx α) (H' : Heap α) : Prop where
+  size : H'.size = H.size + 1
+  val : H'.val H.size = v
+  ctx : H'.ctx H.size = c
+  ext : Extends H H'
+
+theorem alloc_push (H : Heap α) (v : Tensor α) (c : Ctx α) : Alloc H v c (H.push ⟨v, c⟩) :=
+  ⟨by simp, push_val_new _ _, by simp [Heap.ctx], extends_push _ _⟩
+
+theorem Alloc.val' {H H1 H2 : Heap α} {v : Tensor α} {c : Ctx α} (a : Alloc H v c H1) (e : Extends H1 H2) :
+    H2.val H.size = v := by rw [e.val (by rw [a.size]; omega), a.val]
+
+theorem Alloc.ctx' {H H1 H2 : Heap α} {v : Tensor α} {c : Ctx α} (a : Alloc H v c H1) (e : Extends H1 H2) :
+    H2.ctx H.size = c := by rw [e.ctx (by rw [a.size]; omega), a.ctx]
+
+theorem mkCtx_ext {H H' : Heap α} (e : Extends H H') (ops : List Nat) (hops : ∀ n ∈ ops, n < H.size) (es : List (Edge α)) :
+    mkCtx H' ops es = mkCtx H ops es := by
+  have h1 : ops.any H'.dirty = ops.any H.dirty := by
+    apply List.any_congr
+    intro n hn
+    simp only [Heap.dirty, e.ctx (hops n hn)]
+  have h2 : ops.all (fun n => !H'.tracked n) = ops.all (fun n => !H.tracked n) := by
+    apply List.all_congr
+    intro n hn
+    simp only [Heap.tracked, e.ctx (hops n hn)]
+  unfold mkCtx
+  rw [h1, h2]
+
+theorem hOp1_alloc (x : Nat) (v : Tensor α) (rule : Nat → Rule α) (H : Heap α) :
+    hOp1 x (.ok v) rule H = .ok (H.size, H.push ⟨v, mkCtx H [x] [⟨x, rule H.size⟩]⟩) := by
+  simp [hOp1, hm_bind, getHeap, liftOut, alloc, Out.bind]
+
+theorem hUnSqueeze_alloc (x : Nat) (dim : Int) (H : Heap α) (v : Tensor α) (h : vUnSqueeze (H.val x) dim = .ok v) :
+    ∃ H1, hUnSqueeze x dim H = .ok (H.size, H1) ∧ Alloc H v (mkCtx H [x] [⟨x, .reshapeX x⟩]) H1 := by
+  refine ⟨_, ?_, alloc_push H v _⟩
+  unfold hUnSqueeze
+  rw [bind_run (show (getHeap : HM α (Heap α)) H = .ok (H, H) from rfl), h]
+  exact hOp1_alloc x v (fun _ => Rule.reshapeX x) H
+
+theorem hBroadcast_alloc (x : Nat) (s : List Int) (H : Heap α) (v : Tensor α) (h : vBroadcast (H.val x) s = .ok v) :
+    ∃ H1, hBroadcast x s H = .ok (H.size, H1) ∧ Alloc H v (mkCtx H [x] [⟨x, .bcastX x H.size⟩]) H1 := by
+  refine ⟨_, ?_, alloc_push H v _⟩
+  unfold hBroadcast
+  rw [bind_run (show (getHeap : HM α (Heap α)) H = .ok (H, H) from rfl), h]
+  exact hOp1_alloc x v (fun y => Rule.bcastX x y) H
+
+theorem hSumAlong_alloc (x : Nat) (d : Nat) (H : Heap α) (v : Tensor α) (h : vAlong .sum (H.val x) (d : Int) = .ok v) :
+    ∃ H1, hAlong .sum x (d : Int) H = .ok (H.size, H1) ∧ Alloc H v (mkCtx H [x] [⟨x, .sumAlongX x d⟩]) H1 := by
+  refine ⟨_, ?_, alloc_push H v _⟩
+  unfold hAlong
+  rw [bind_run (show (getHeap : HM α (Heap α)) H = .ok (H, H) from rfl), h]
+  have := hOp1_alloc x v (fun y => alongRule .sum x y (d : Int).toNat) H
+  simpa [alongRule] using this
+
+/-- `MatMul`: two `Broadcast` nodes, then the product node with the two MatMul edges -/
+theorem hMatMul_alloc (a b : Nat) (H : Heap α) (ha : a < H.size) (hb : b < H.size) (va vb v : Tensor α)
+    (hv : validMatMul (H.val a).dims (H.val b).dims = true)
+    (hba : vBroadcastN (H.val a) (matMulShape (targetBroadcastDims (H.val a).dims (H.val b).dims) (H.val a).dims) = .ok va)
+    (hbb : vBroadcastN (H.val b) (matMulShape (targetBroadcastDims (H.val a).dims (H.val b).dims) (H.val b).dims) = .ok vb)
+    (hm : va.matMulRaw vb = some v) :
+    ∃ H1 H2 H3, hMatMul a b H = .ok (H.size + 2, H3) ∧
+      Alloc H va (mkCtx H [a] [⟨a, .bcastX a H.size⟩]) H1 ∧
+      Alloc H1 vb (mkCtx H1 [b] [⟨b, .bcastX b (H.size + 1)⟩]) H2 ∧
+      Alloc H2 v (mkCtx H2 [H.size, H.size + 1] [⟨H.size, .matmulA (H.size + 1)⟩, ⟨H.size + 1, .matmulB H.size⟩]) H3 := by
+  obtain ⟨H1, r1, a1⟩ := hBroadcast_alloc a
+    ((matMulShape (targetBroadcastDims (H.val a).dims (H.val b).dims) (H.val a).dims).map Int.ofNat) H va hba
+  have hbv : H1.val b = H.val b := a1.ext.val hb
+  obtain ⟨H2, r2, a2⟩ := hBroadcast_alloc b
+    ((matMulShape (targetBroadcastDims (H.val a).dims (H.val b).dims) (H.val b).dims).map Int.ofNat) H1 vb
+    (by rw [hbv]; exact hbb)
+  have hs1 : H1.size = H.size + 1 := a1.size
+  have hs2 : H2.size = H.size + 2 := by rw [a2.size, hs1]
+  rw [hs1] at r2 a2
+  have hva : H2.val H.size = va := a1.val' a2.ext
+  have hvb : H2.val (H.size + 1) = vb := by have := a2.val; rw [hs1] at this; exact this
+  refine ⟨H1, H2, _, ?_, a1, a2, ?_⟩
+  · unfold hMatMul
+    rw [bind_run (show (getHeap : HM α (Heap α)) H = .ok (H, H) from rfl), if_pos hv]
+    unfold hBroadcastPairMM
+    rw [hm_bind, hm_bind]
+    rw [show (getHeap : HM α (Heap α)) H = .ok (H, H) from rfl]
+    simp only [Out.bind]
+    rw [hm_bind, r1]
+    simp only [Out.bind]
+    rw [hm_bind, r2]
+    simp only [Out.bind, pure, StateT.pure]
+    rw [hm_bind]
+    rw [show (getHeap : HM α (Heap α)) H2 = .ok (H2, H2) from rfl]
+    simp only [Out.bind]
+    rw [hm_bind, hva, hvb, hm]
+    simp only [Out.ofOpt, liftOut, Out.bind, alloc, hs2]
+  · have := alloc_push H2 v (mkCtx H2 [H.size, H.size + 1] [⟨H.size, .matmulA (H.size + 1)⟩, ⟨H.size + 1, .matmulB H.size⟩])
+    exact this
+
 end C16x
 end Qeep
